@@ -1,6 +1,11 @@
 /-
 C17: the (use, definition) pairs of the Go templates, computed from the regenerated facts
 (Facts/GeneratedC17.lean) and the expectation tables (Facts/ExpectC17.lean). Core Lean only.
+
+Kernel evaluation of String equality is very slow, so everything that an obligation evaluates works on ids
+(atom id = position in `c17Atoms`, likewise names, files, define blocks). The texts of the hand-written tables
+are connected to ids through the hint tables of ExpectC17.lean; `textsOfAxioms …` below are the two sides of the
+`rfl` checks that validate the hints (Props/C17.lean, `C17_tables_resolve`).
 -/
 import TmVerif.Model.Guards
 import TmVerif.Facts.GeneratedC17
@@ -8,54 +13,72 @@ import TmVerif.Facts.ExpectC17
 namespace TmVerif.Guards
 open TmVerif.Facts
 
-/-- Id of the atom with this text; an id no atom has when there is none (see `axiomsResolve`). -/
-def atomId (s : String) : Nat :=
-  match c17Atoms.find? (fun a => a.text == s) with
-  | some a => a.id
-  | none => 1000000
+/-! ## ids ↔ texts -/
 
-def atomKnown (s : String) : Bool := c17Atoms.any (fun a => a.text == s)
+def atomText (i : Nat) : String := ((c17Atoms[i]?).map (·.text)).getD "<no such atom>"
+def nameText (i : Nat) : String × String := ((c17Names[i]?).map (fun n => (n.pkg, n.name))).getD ("?", "?")
+def fileName (i : Nat) : String := ((c17Files[i]?).map (·.file)).getD "?"
+def tmplName (i : Nat) : String := (c17Tmpls[i]?).getD "?"
 
-def tfToGF : TF → GF
-  | .tt => .tt
-  | .a s => .atom (atomId s)
-  | .not f => .not (tfToGF f)
-  | .and f g => .and (tfToGF f) (tfToGF g)
-  | .or f g => .or (tfToGF f) (tfToGF g)
+/-- ids are positions. -/
+def idsAreOrdinals : Bool :=
+  c17Atoms.map (·.id) == List.range c17Atoms.length &&
+  c17Names.map (·.id) == List.range c17Names.length &&
+  c17Files.map (·.id) == List.range c17Files.length
 
-def tfKnown : TF → Bool
-  | .tt => true
-  | .a s => atomKnown s
-  | .not f => tfKnown f
-  | .and f g => tfKnown f && tfKnown g
-  | .or f g => tfKnown f && tfKnown g
+/-- Atom texts of a table formula, in order of occurrence. -/
+def tfTexts : TF → List String
+  | .tt => []
+  | .a s => [s]
+  | .not f => tfTexts f
+  | .and f g => tfTexts f ++ tfTexts g
+  | .or f g => tfTexts f ++ tfTexts g
+
+/-- Resolves a table formula with the hinted ids (consumed in order of occurrence). -/
+def tfToGF : TF → List Nat → GF × List Nat
+  | .tt, ids => (.tt, ids)
+  | .a _, [] => (.atom 1000000, [])
+  | .a _, i :: ids => (.atom i, ids)
+  | .not f, ids => let (g, r) := tfToGF f ids; (.not g, r)
+  | .and f g, ids => let (f', r) := tfToGF f ids; let (g', r') := tfToGF g r; (.and f' g', r')
+  | .or f g, ids => let (f', r) := tfToGF f ids; let (g', r') := tfToGF g r; (.or f' g', r')
+
+def resolveAx (a : AxExpect) (ids : List Nat) : Ax :=
+  let (h, r) := tfToGF a.hyp ids
+  let (c, _) := tfToGF a.concl r
+  ⟨h, c⟩
 
 /-- The implication table, resolved. -/
-def axioms : List Ax := c17Axioms.map (fun a => ⟨tfToGF a.hyp, tfToGF a.concl⟩)
+def axioms : List Ax := (c17Axioms.zip c17AxiomAtomIds).map (fun (a, ids) => resolveAx a ids)
 
-/-- Ids of the `.Options.IsEnabled "x"` atoms. -/
-def delegatedIds : List Nat :=
-  (c17AtomExpectations.filter (fun e => e.kind == .delegated)).map (fun e => atomId e.text)
+/-- Both sides of the check that the axiom hints are right. -/
+def axiomTextsWritten : List (List String) := c17Axioms.map (fun a => tfTexts a.hyp ++ tfTexts a.concl)
+def axiomTextsHinted : List (List String) := c17AxiomAtomIds.map (fun ids => ids.map atomText)
 
-def isDelegated (n : Nat) : Bool := delegatedIds.contains n
+def knownTextsWritten : List (List String) :=
+  c17KnownInconsistent.map (fun k => [k.pkg, k.name, k.file, k.tmpl] ++ k.trues)
+def knownTextsHinted : List (List String) :=
+  c17KnownIds.map (fun (n, f, t, tr) => [(nameText n).1, (nameText n).2, fileName f, tmplName t] ++ tr.map atomText)
 
-def localDefIds : List Nat :=
-  (c17AtomExpectations.filter (fun e => e.kind == .localDef)).map (fun e => atomId e.text)
+def notPropTextsWritten : List (List String) := c17NotPropositional.map (fun k => [k.pkg, k.name, k.file, k.tmpl])
+def notPropTextsHinted : List (List String) :=
+  c17NotPropIds.map (fun (n, f, t) => [(nameText n).1, (nameText n).2, fileName f, tmplName t])
 
-def fileCond (id : Nat) : GF :=
-  match c17Files.find? (fun f => f.id == id) with
-  | some f => f.cond
-  | none => GF.ff
+/-- Atom texts of the facts and of the classification, both in id order. -/
+def atomTextsFacts : List String := c17Atoms.map (·.text)
+def atomTextsExpected : List String := c17AtomExpectations.map (·.text)
 
-def fileName (id : Nat) : String :=
-  match c17Files.find? (fun f => f.id == id) with
-  | some f => f.file
-  | none => "?"
+def kindOf (i : Nat) : Option AtomKind := (c17AtomExpectations[i]?).map (·.kind)
 
-def nameOf (id : Nat) : String × String :=
-  match c17Names.find? (fun n => n.id == id) with
-  | some n => (n.pkg, n.name)
-  | none => ("?", "?")
+/-- `.Options.IsEnabled "x"` atoms. -/
+def isDelegated (n : Nat) : Bool := kindOf n == some .delegated
+def isLocalDef (n : Nat) : Bool := kindOf n == some .localDef
+
+def delegatedIds : List Nat := (List.range c17AtomExpectations.length).filter isDelegated
+
+/-! ## guards -/
+
+def fileCond (id : Nat) : GF := ((c17Files[id]?).map (·.cond)).getD GF.ff
 
 /-- Guard of a use: its file is generated and the guards around the text hold. -/
 def useGuard (u : TmplUse) : GF := .and (fileCond u.file) u.guard
@@ -74,17 +97,13 @@ def disj : List GF → GF
 /-- The identifier is declared: some declaration site of it is generated. -/
 def defGuard (name : Nat) : GF := disj ((c17Defs.filter (fun d => d.name == name)).map defSiteGuard)
 
-def useIs (u : TmplUse) (pkg name file tmpl : String) : Bool :=
-  nameOf u.name == (pkg, name) && fileName u.file == file && u.tmpl == tmpl
+def useIs (u : TmplUse) (n f t : Nat) : Bool := u.name == n && u.file == f && u.tmpl == t
 
-def knownFor (u : TmplUse) : Option KnownInconsistent :=
-  c17KnownInconsistent.find? (fun k => useIs u k.pkg k.name k.file k.tmpl)
-
-def notPropFor (u : TmplUse) : Option NotPropositional :=
-  c17NotPropositional.find? (fun k => useIs u k.pkg k.name k.file k.tmpl)
+def isKnown (u : TmplUse) : Bool := c17KnownIds.any (fun (n, f, t, _) => useIs u n f t)
+def isNotProp (u : TmplUse) : Bool := c17NotPropIds.any (fun (n, f, t) => useIs u n f t)
 
 /-- Uses outside the obligation: listed as known-inconsistent or as not propositional. -/
-def excluded (u : TmplUse) : Bool := (knownFor u).isSome || (notPropFor u).isSome
+def excluded (u : TmplUse) : Bool := isKnown u || isNotProp u
 
 def useOk (u : TmplUse) : Bool := excluded u || checkImp axioms (useGuard u) (defGuard u.name)
 
@@ -94,50 +113,40 @@ def allUsesOk : Bool :=
     let dg := defGuard n.id
     (c17Uses.filter (fun u => u.name == n.id)).all (fun u => excluded u || checkImp axioms (useGuard u) dg))
 
-/-- The counter-valuation of a known-inconsistent entry: its `trues` and every delegated atom. -/
-def knownTrues (k : KnownInconsistent) : List Nat := k.trues.map atomId ++ delegatedIds
+/-- Every use names a declared identifier (so that `allUsesOk`, which goes name by name, sees every use). -/
+def usesNamed : Bool := c17Uses.all (fun u => c17Names.any (fun n => n.id == u.name))
 
-def knownEntryOk (k : KnownInconsistent) : Bool :=
-  let us := c17Uses.filter (fun u => useIs u k.pkg k.name k.file k.tmpl)
-  !us.isEmpty && k.trues.all atomKnown &&
-    us.all (fun u => refutes axioms (useGuard u) (defGuard u.name) (knownTrues k))
+/-- A known-inconsistent entry matches at least one use, and its valuation (`trues` and every delegated atom)
+refutes every use it matches. -/
+def knownEntryOk (k : Nat × Nat × Nat × List Nat) : Bool :=
+  let us := c17Uses.filter (fun u => useIs u k.1 k.2.1 k.2.2.1)
+  !us.isEmpty && us.all (fun u => refutes axioms (useGuard u) (defGuard u.name) (k.2.2.2 ++ delegatedIds))
 
-def notPropEntryOk (k : NotPropositional) : Bool :=
-  let us := c17Uses.filter (fun u => useIs u k.pkg k.name k.file k.tmpl)
+def notPropEntryOk (k : Nat × Nat × Nat) : Bool :=
+  let us := c17Uses.filter (fun u => useIs u k.1 k.2.1 k.2.2)
   !us.isEmpty && us.all (fun u =>
-    (c17Defs.filter (fun d => d.name == u.name)).all (fun d => shares (atomsOf d.guard) localDefIds))
+    (c17Defs.filter (fun d => d.name == u.name)).all (fun d => (atomsOf d.guard).any isLocalDef))
+
+def noDupGo : List GF → Bool
+  | [] => true
+  | g :: rest => rest.all (fun h => checkImp axioms (.and g h) GF.ff) && noDupGo rest
 
 /-- Two declaration sites of one name are never generated together. -/
 def noDuplicates : Bool :=
-  c17Names.all (fun n =>
-    let ds := (c17Defs.filter (fun d => d.name == n.id)).map defSiteGuardRaw
-    let rec go : List GF → Bool
-      | [] => true
-      | g :: rest => rest.all (fun h => checkImp axioms (.and g h) GF.ff) && go rest
-    go ds)
-
-def atomsClassified : Bool :=
-  c17Atoms.all (fun a => c17AtomExpectations.any (fun e => e.text == a.text)) &&
-  c17AtomExpectations.all (fun e => atomKnown e.text) &&
-  c17Atoms.length == c17AtomExpectations.length
-
-def axiomsResolve : Bool := c17Axioms.all (fun a => tfKnown a.hyp && tfKnown a.concl)
-
-def hashesPinned : Bool :=
-  c17ExpectedHashes.all (fun e => c17Hashes.any (fun h => h.what == e.what && h.hash == e.hash))
+  c17Names.all (fun n => noDupGo ((c17Defs.filter (fun d => d.name == n.id)).map defSiteGuardRaw))
 
 /-- Counts for the driver: uses, consistent, known-inconsistent, not propositional, inconsistent. -/
 def counts : Nat × Nat × Nat × Nat × Nat :=
   c17Uses.foldl (fun (t, c, k, p, i) u =>
-    if (knownFor u).isSome then (t + 1, c, k + 1, p, i)
-    else if (notPropFor u).isSome then (t + 1, c, k, p + 1, i)
+    if isKnown u then (t + 1, c, k + 1, p, i)
+    else if isNotProp u then (t + 1, c, k, p + 1, i)
     else if checkImp axioms (useGuard u) (defGuard u.name) then (t + 1, c + 1, k, p, i)
     else (t + 1, c, k, p, i + 1)) (0, 0, 0, 0, 0)
 
 /-- The uses that are neither listed nor consistent (for the driver's report). -/
 def openUses : List String :=
   (c17Uses.filter (fun u => !useOk u)).map (fun u =>
-    let (p, n) := nameOf u.name
-    s!"{p}.{n}@{fileName u.file}:{u.tmpl}")
+    let (p, n) := nameText u.name
+    s!"{p}.{n}@{fileName u.file}:{tmplName u.tmpl}")
 
 end TmVerif.Guards
